@@ -164,6 +164,16 @@ func runC08(args []string) error {
 			}
 		}
 		applyMore()
+		// dragonboat's concurrent save calls Sync() on the state machine right before SaveSnapshot: what was applied
+		// after the prepare is flushed to the DB's files while the prepared image must stay what it was
+		if (c/4)%2 == 0 { // every format pair with and without
+			if err := src.f.Sync(); err != nil {
+				return err
+			}
+			sum.hist("between_prepare_and_save").Inc("writes, then Sync (flush)")
+		} else {
+			sum.hist("between_prepare_and_save").Inc("writes only")
+		}
 		var buf bytes.Buffer
 		if err := src.f.SaveSnapshot(ctx, &hookWriter{w: &buf, hook: applyMore}, nil); err != nil {
 			sum.violate(c, "saving a snapshot fails", in, err.Error())
